@@ -97,7 +97,8 @@ def shape_generator(index):
             blk = B.inst(A + "BlockAstNode", kind="block", file_info=_tok(B), body=B.symlist("bound_block"))
             root = B.I.hget(B.st, res).fields["current_scope"]
             B.I.hmut(B.st, B.I.hget(B.st, root).fields["code_symbols"]).items["blk"] = blk
-        return {"gen": B.func(G + KIND_TO_GEN[kind]), "node": node, "resolver": res, "defs": defs, "tok": _tok(B), "sub_trees": B.list(subs), "explicit_recursion": explicit}
+        return {"gen": B.func(G + KIND_TO_GEN[kind]), "node": node, "resolver": res, "defs": defs, "tok": _tok(B), "sub_trees": B.list(subs), "explicit_recursion": explicit,
+                "own_scopes": {"compound": 1, "scope": 1, "for": None}.get(kind, 0)}
     return sh
 
 
@@ -114,7 +115,7 @@ def shape_macro_application(nargs, kinds):
             else:
                 args.append(_expr(B, "arg%d" % i))
         node = S.ast_apply(B, "m", args)
-        return {"gen": B.func(G + "generate_macro_application"), "node": node, "resolver": res, "defs": B.dict({"m": mdef}), "tok": _tok(B), "sub_trees": B.list([]), "explicit_recursion": True}
+        return {"gen": B.func(G + "generate_macro_application"), "node": node, "resolver": res, "defs": B.dict({"m": mdef}), "tok": _tok(B), "sub_trees": B.list([]), "explicit_recursion": True, "own_scopes": 1}
     return sh
 
 
@@ -215,7 +216,7 @@ def loop_specs(E):
 
 
 def contracts():
-    c = {G + "_code_gen": M + "code_gen_model"}
+    c = {G + "_code_gen": M + "code_gen_model", "a816.parse.nodes.ScopeNode.__init__": M + "scope_node_init_model", "a816.parse.nodes.PopScopeNode.__init__": M + "pop_scope_node_init_model"}
     for g in GENERATORS:
         c[G + g] = M + "generator_model"
     return c
